@@ -105,8 +105,10 @@ void run_case(Tape& t, Stats& st) {
 	unsigned mode = unsigned(t.below(8));
 	LPrt p = prtgen::gen_lprt(t);
 	if (st.want_sample()) st.sample("{\"mode\":" + std::to_string(mode) + ",\"prt\":" + prtgen::render(p) + "}");
-	if (mode == 0) violating_read(p, unsigned(t.below(6)), t.u16(), st);
-	else if (mode == 1) violating_write(p, unsigned(t.below(5)), t.u16(), st);
+	// a structure that used up the whole tape would otherwise always get kind 0 at record 0: derive both from the structure then
+	bool spent = t.empty(); uint64_t hsh = hmix(hmix(p.images.size(), p.anims.size()), p.images.empty() ? 7 : p.images.back().pixelOffset + p.images.size() * 2654435761u);
+	if (mode == 0) { unsigned k = unsigned(t.below(6)); uint64_t a = t.u16(); if (spent) { k = unsigned(hsh % 6); a = hsh >> 8; } violating_read(p, k, a, st); }
+	else if (mode == 1) { unsigned k = unsigned(t.below(5)); uint64_t a = t.u16(); if (spent) { k = unsigned(hsh % 5); a = hsh >> 8; } violating_write(p, k, a, st); }
 	else {
 		// one case in four: ANOTHER structure goes through the reader and the writer first (larger or smaller, other flags) - what the library
 		// did before must not show in what it does now
@@ -141,6 +143,18 @@ void run_sweep(Stats& st) {
 		for (unsigned kind = 0; kind < 6; ++kind) violating_read(p, kind, np * 7 + ni, st);
 		for (unsigned kind = 0; kind < 4; ++kind) violating_write(p, kind, na, st);
 		for (uint64_t a : {uint64_t(4), uint64_t(5), uint64_t(6)}) violating_write(p, 3, a, st);   // list longer by 128, 256, 512
+	}
+	// image tables beyond 1024 / 2048 / 4096 / 65536 records (whatever batch or index width a reader uses) with ONE violating record late in the
+	// table: the last one, record 1024, the middle one, record 65536 - refused on read and on write; the intact table round-trips
+	for (uint32_t n : {1025u, 2049u, 4097u, 65537u, 70000u}) {
+		LPrt p; std::array<std::array<uint8_t, 4>, 256> pal{}; for (size_t i = 0; i < 256; ++i) pal[i] = {uint8_t(i), uint8_t(i * 3), 9, 0}; p.palettes = {pal, pal}; p.palHeaders = {{}, {}};
+		for (uint32_t i = 0; i < n; ++i) { uint32_t w = 1 + i % 37; p.images.push_back({(w + 3) & ~3u, i * 16, 1 + i % 5, w, uint16_t(i % 3), uint16_t(i & 1)}); }
+		if (sw("big_image_table", n, 0)) valid_case(p, st);
+		for (uint32_t r : {n - 1, 1024u, n / 2, 65536u}) { if (r >= n) continue; for (unsigned kind = 0; kind < 2; ++kind) {
+			if (!sw("big_image_table", n, 1 + r, kind)) continue;
+			violating_read(p, kind, r, st);                     // a % n == r: the violating record is record r
+			{ ArtFile art = prtgen::read_art(refgfx::encode_prt(p)); if (kind == 0) art.imageMetas[r].paletteIndex = 2; else art.imageMetas[r].scanLineByteWidth += 4; Stream::DynamicMemoryWriter w; V_CHECK(guarded([&] { art.Write(w); }) == Out::Err, "ArtFile::Write accepted a table of " << n << " images whose record " << r << " violates a cross-field rule"); }
+		} }
 	}
 	st.exhaustive = true;
 }
